@@ -774,6 +774,24 @@ fn main() {
             if errs != vec![InvalidPolygon::IntersectingRingsOnAnArea(RingRole::Interior(0), RingRole::Interior(2))] {
                 fail(format!("holes 0 and 2 overlap: reported {:?}", errs));
             }
+            // MultiPolygon: pair errors carry (earlier, later) member indices, own errors the member index
+            use geo::algorithm::validation::{GeometryIndex, InvalidMultiPolygon};
+            use geo_types::MultiPolygon;
+            let solid = |x0: f64, y0: f64, x1: f64, y1: f64| Polygon::new(sq(x0, y0, x1, y1), vec![]);
+            let cases: Vec<(MultiPolygon<f64>, Vec<InvalidMultiPolygon>)> = vec![
+                (MultiPolygon(vec![solid(0.0, 0.0, 4.0, 4.0), solid(10.0, 10.0, 12.0, 12.0), solid(2.0, 2.0, 6.0, 6.0)]),
+                 vec![InvalidMultiPolygon::ElementsOverlaps(GeometryIndex(0), GeometryIndex(2))]),
+                (MultiPolygon(vec![solid(10.0, 10.0, 12.0, 12.0), solid(0.0, 0.0, 4.0, 4.0), solid(4.0, 0.0, 8.0, 4.0)]),
+                 vec![InvalidMultiPolygon::ElementsTouchOnALine(GeometryIndex(1), GeometryIndex(2))]),
+                (MultiPolygon(vec![solid(0.0, 0.0, 4.0, 4.0), Polygon::new(sq(10.0, 10.0, 20.0, 20.0), vec![empty(), sq(30.0, 30.0, 32.0, 32.0)])]),
+                 vec![InvalidMultiPolygon::InvalidPolygon(GeometryIndex(1), InvalidPolygon::InteriorRingNotContainedInExteriorRing(RingRole::Interior(1)))]),
+                (MultiPolygon(vec![solid(0.0, 0.0, 4.0, 4.0), solid(4.0, 4.0, 8.0, 8.0)]), vec![]),
+            ];
+            for (mp, want) in cases {
+                if mp.validation_errors() != want {
+                    fail(format!("multi-polygon validation reported {:?}, expected {:?}", mp.validation_errors(), want));
+                }
+            }
             println!("ok polygon validation");
         }
         "interior_point_scan_line" => {
